@@ -49,7 +49,7 @@ pub const DERIVE_POOL: [&str; 10] = [
     "alpha::Beta",
     "Hash",
 ];
-pub const ATTR_POOL: [&str; 8] = [
+pub const ATTR_POOL: [&str; 10] = [
     "#[allow(dead_code)]",
     "#[serde(crate = \"x\")]",
     "#[repr(C)]",
@@ -58,6 +58,9 @@ pub const ATTR_POOL: [&str; 8] = [
     "#[aa_first(k = 1)]",
     "#[cfg_attr(test, derive(Default))]",
     "#[codec(crate = ::vsupport::codec)]",
+    // two more attributes that share their name with one above (an ordering by name alone is not an ordering)
+    "#[allow(unused)]",
+    "#[serde(rename_all = \"camelCase\")]",
 ];
 
 impl Default for SettingsSpec {
